@@ -125,8 +125,8 @@ CONDITIONS = [
                               [{"n": 3, "o4": 0, "o1": a, "o2": b, "o3": c, "check": True} for (a, b) in ((0, 1), (3, 2)) for c in range(NOPS)] +
                               [{"n": 4, "o1": 0, "o2": 1, "o3": 9, "o4": d, "check": True} for d in (4, 5, 3, 10)] +
                               [{"n": 4, "o1": 1, "o2": 0, "o3": 9, "o4": d, "check": True} for d in (4, 5, 10)],
-                     "thorough": [{"n": 3, "o4": 0, "o1": a, "o2": b} for a in range(NOPS) for b in range(NOPS)] +
-                                 [{"n": 4, "o1": a, "o2": b, "o3": c, "check": True} for a in (0, 1, 3) for b in (1, 2, 4, 6) for c in range(NOPS)]},
+                     "thorough": [{"n": 3, "o4": 0, "o1": a, "o2": b, "check": (a + b) % 3 != 0} for a in range(NOPS) for b in range(NOPS)] +
+                                 [{"n": 4, "o1": a, "o2": b, "o3": c, "check": True} for (a, b) in ((0, 1), (1, 0), (3, 2)) for c in (4, 5, 6, 9, 10)]},
          timeout={"quick": 600, "thorough": 1800}, path_timeout=60,
          functions=["cache.Cache.set/get/get_identity/reset/delete/active/entities/subjects", "time_util.after/before/not_on_or_after", "ident.code/decode"],
          bounds="histories of 2 and (sampled first two ops) 3 operations in quick, all 3-op and sampled 4-op histories in thorough, over 13 operation codes "
